@@ -1,7 +1,8 @@
 HOOK_COMMITS = []
 ENGINES = [
     {"name": "explore", "path": "vf/core/explore.py", "serves_properties": ["C01", "C02", "C03", "C07", "C08", "C09", "C11", "C13", "C14", "C15", "C16", "C17", "C18", "C20"], "kind_free_text": "explicit-state BFS with state merging over the real objects; bounded product enumeration; deviation-bounded stateless DFS"},
-    {"name": "vloop", "path": "vf/core/vloop.py", "serves_properties": ["C10", "C19"], "kind_free_text": "virtual asyncio event loop stepped by hand: ready-queue steps, environment events and timers are explicit choices explored exhaustively by explore.dfs"},
+    {"name": "vthreads", "path": "vf/core/vthreads.py", "serves_properties": ["C06", "C19"], "kind_free_text": "baton scheduler over real threads with scheduler-aware queue/future/executor shims and sys.settrace line points; deviation-bounded DFS over schedules; deadlock and livelock detection"},
+    {"name": "vloop", "path": "vf/core/vloop.py", "serves_properties": ["C06", "C10", "C19"], "kind_free_text": "virtual asyncio event loop stepped by hand: ready-queue steps, environment events and timers are explicit choices explored exhaustively by explore.dfs"},
 ]
 NOT_APPLICABLE = {}
 CHECKS = {
@@ -100,5 +101,11 @@ CHECKS = {
         technique="bounded exhaustive enumeration of inner applications x wrapper stacks x requests, differential against the bare application",
         text="14 response recipes (every response class, two Set-Cookie lines, unknown status codes, 0..3-chunk streams, file with Range, event stream, body echo) and 10 raw WSGI / 7 raw ASGI applications (list, tuple, generator, empty iterable, iterable with close(), 1..3 body messages, raising before/after start and after the first chunk) x every stack of depth 1..3 over identity middleware, header-editing middleware and identity view decorator x 4 requests x both interfaces: same status, same headers (Set-Cookie lines separate), same body, inner app run exactly once, only the edited header differs, same exception class.",
         note="repeated non-cookie headers may be combined (same meaning per RFC 9110); finite recipe list",
+    ),
+    "C06": dict(
+        engine="vthreads+vloop", level="model_checking", design_ref="DESIGN.md §3 C06",
+        technique="stateless preemption-bounded exploration of real threads under a baton scheduler (WSGI) and exhaustive interleaving exploration on a virtual asyncio loop (ASGI), with deadlock/leak detection",
+        text="WSGI SendEventResponse runs on real threads of which only one holds the baton; queue.Queue, the pool future and the executor are replaced by scheduler-aware shims and every source line of render_stream/push is a scheduling point (sys.settrace): all schedules with <=2 preemptions at primitive operations and <=1 with line points (thorough 3/2), for every producer length <=2 (3), failure step, close point and ping-timeout budget; deadlock = no enabled thread. ASGI StreamResponse/SendEventResponse: producer steps, send completions, the disconnect and ping timers are explicit events of a hand-stepped event loop, all interleavings explored. Oracle: the call returns, no thread/task/timer left, generator cleanup exactly once, delivered = prefix of yielded, the producer's exception surfaces when nobody left.",
+        note="line granularity; shim primitives bound to the real ones by a differential self-test; n <= 3 items, <= 2 timeouts",
     ),
 }
